@@ -128,7 +128,19 @@ func ribCorpus() []*CaseSpec {
 	fwd := &RibCfg{Fwd: true, Pools: p, Resolved: true}
 	nofwd := &RibCfg{Fwd: false, Pools: p}
 	bad := func(s Step) Step { s.Cls = "bad"; return s }
+	burst := func(s Step) Step { s.Burst = true; return s }
+	// ADD immediately followed by DELETE of the same prefix, over a RIB large enough for a snapshot
+	// to take a while: each ADD's resolved-entry snapshot must still show the entry
+	burstSteps := []Step{ni2, hook, nh(1, A, "DEFAULT", 1), nhg(2, A, "DEFAULT", 1, 0, 1)}
+	for i := uint64(0); i < 150; i++ {
+		burstSteps = append(burstSteps, burst(nh(100+i, A, "VRF1", 10+i)))
+	}
+	burstSteps = append(burstSteps, nh(300, A, "VRF1", 5))
+	for i := uint64(0); i < 12; i++ {
+		burstSteps = append(burstSteps, burst(v4(400+2*i, A, "DEFAULT", "2.0.0.0/8", 1, "")), v4(401+2*i, D, "DEFAULT", "2.0.0.0/8", 1, ""))
+	}
 	return []*CaseSpec{
+		ribCase("corpus/burst-add-delete", fwd, burstSteps),
 		// DELETE of keys that are not a prefix / a label of the 20-bit range (D21): FAILED, nothing changes
 		ribCase("corpus/delete-invalid-key", fwd, []Step{nh(1, A, "DEFAULT", 1), nhg(2, A, "DEFAULT", 1, 0, 1), v4(3, A, "DEFAULT", "1.0.0.0/8", 1, ""),
 			bad(v4(4, D, "DEFAULT", "not-a-prefix", 1, "")), bad(v6(5, D, "DEFAULT", "1.2.3.4/33", 1, "")), bad(mpls(6, D, "DEFAULT", 1048576+100, 1)), bad(v4(7, D, "DEFAULT", "", 1, ""))}),
